@@ -5,6 +5,7 @@ import D2P.Props.C02Stray
 import D2P.Props.C02BodyStray
 import D2P.Props.C02Notes
 import D2P.Props.C02Deep
+import D2P.Props.C02DeepCells
 /-!
 # Open findings, as kernel-checked witnesses
 
@@ -141,6 +142,23 @@ theorem deep_links_witness :
     deepPartOK linkDoc = true ∧
     linkDoc.kids.flatMap (fun k => if deep 6 k then out 6 k else []) = [1, 12, 20] ∧
     (match newDepthCollector cfgNoDup [] linkDoc with | .ok dc => elemsOf (leafParsL dc.root) | .error _ => []) = [1, 12, 20] := by
+  decide +kernel
+
+/-- a table whose first cell holds a paragraph with a link, a NESTED table and another paragraph, and whose second cell
+spans two columns -/
+def tblDoc : Xml :=
+  el 0 "body" [] none [p 1 [r 2 [t 3 "a"]],
+    tbl 10 [tr 11 [tc 12 [] [p 14 [r 15 [t 16 "see "], el 17 "hyperlink" [(⟨some (lit "R"), lit "id"⟩, lit "rId9")] none [r 18 [t 19 "link"]]],
+                              tbl 20 [tr 21 [tc 22 [] [p 24 [r 25 [t 26 "inner"]]]]],
+                              p 30 [r 31 [t 32 "after"]]],
+                   tc 40 [el 41 "gridSpan" [wattr "val" "2"] none []] [p 43 [r 44 [t 45 "wide"]]]]],
+    p 50 [r 51 [t 52 "z"]]]
+
+/-- non-vacuity of `C02_deepC_once_in_order`: tables of any shape (duplication off) -/
+theorem deepC_witness :
+    deepCPartOK tblDoc = true ∧
+    tblDoc.kids.flatMap (fun k => if deepC 8 k then outC 8 k else []) = [1, 14, 24, 30, 43, 50] ∧
+    (match newDepthCollector cfgNoDup [] tblDoc with | .ok dc => elemsOf (leafParsL dc.root) | .error _ => []) = [1, 14, 24, 30, 43, 50] := by
   decide +kernel
 
 end D2P.Ex
